@@ -986,7 +986,7 @@ pub fn stages(ctx: &Ctx) -> Vec<Stage> {
         let mode = [DataMode::Arbitrary, DataMode::Smooth, DataMode::Reproduce][(i / 32) as usize];
         run_case(rep, &mut rng, i, n, mode, "anchors");
     }));
-    st.push(Stage::new("random", tier.pick(30_000, 200_000), move |i, rep| {
+    st.push(Stage::new("random", tier.pick(30_000, 1_000_000), move |i, rep| {
         let mut rng = Rng::for_case(seed, "c16-random", i);
         let n = match rng.below(10) {
             0 => 2 + rng.below(3),
